@@ -46,6 +46,9 @@ def run(tier):
                 w["only_in_short"] = [common.detok(list(x))[:400] for x in (ma - mb)][:2]
                 w["only_in_long"] = [common.detok(list(x))[:400] for x in (mb - ma)][:2]
             ck.violation(sig, w)
+    if tier == "thorough":
+        from vlib import cov
+        cov.report(ck, "C12", srcs)
     return ck.finish()
 
 
